@@ -209,6 +209,19 @@ CLAIMED = {
              'functions validated on the generated requests only.',
         technique='Coq proof (string lemmas for the media-type specification; relay/refuse/uniformity of the gate model) + correspondence through framework test clients',
         design='6 C18'),
+    'C14': dict(
+        text='Theorems about the model of the two validators on top of the binding model: with the schema validator the body runs IFF the '
+             'arguments bind and the bound-argument mapping satisfies the schema, with exactly the arguments an unvalidated call gets, '
+             'otherwise "invalid params" without running; js_valid (the executable semantics of the type / enum / minimum / maximum / '
+             'properties / required / additionalProperties / items fragment) means what the keywords say; the excluded (context) '
+             'parameter is never part of what is validated and cannot be supplied; with the type validator every bound argument must be '
+             'accepted, without coercion the arguments are unchanged, with coercion the body receives exactly the converted values. '
+             'Correspondence: end-to-end dispatch through validated methods; js_valid cross-checked against the jsonschema package and the '
+             'pydantic verdicts taken from pydantic.TypeAdapter independently of pjrpc on every case.',
+        note='PARTIAL: jsonschema\'s and pydantic\'s own semantics are oracles (jsonschema cross-checked on the fragment; pydantic conversions '
+             'supplied per argument). trusted: Coq kernel + vm_compute; hand-written model validated on generated inputs only.',
+        technique='Coq proof (validator = binding + conformance predicate; evaluator characterisation lemmas) + end-to-end correspondence with both oracles cross-checked',
+        design='6 C14'),
 }
 
 PENDING_REASON = 'not claimed yet: model, theorems and correspondence for this property are not all in place in this commit (see DESIGN.md section 10)'
